@@ -257,7 +257,7 @@ def run(tier, seed):
     rep = Report(PID, tier, seed, "fault_enumeration")
     R = loader.load(with_io=True)
     _G.update(R=R, tier=tier)
-    F = 3 if tier == "quick" else 4
+    F = 3 if tier == "quick" else 5
     rep.functions = ["ioclient.AsyncIOClient.connect / _receive_loop / send / _update_state / _process_queue / close / log_before_retry",
                      "ioclient.EByteNmea2000Gateway / TextNmea2000Gateway / WaveShareNmea2000Gateway ._connect_impl / _receive_impl",
                      "tenacity AsyncRetrying (real code, virtual clock)", "asyncio.StreamReader / Queue / Lock (real stdlib classes)"]
@@ -266,10 +266,10 @@ def run(tier, seed):
     rep.stubs = ["asyncio.open_connection / serial_asyncio.open_serial_connection -> scripted transport (StreamReader is the real class)",
                  "event loop: real SelectorEventLoop, selector stub advancing a virtual clock", "StreamWriter -> recording stub"]
     rep.outside = ["more than %d consecutive faults" % F, "OS-level socket behaviour", "faults injected between individual loop steps of a handshake (C14 covers close() there)"]
-    jobs = [(k, F, False) for k in aio.CLIENTS] + [(k, 1, True) for k in aio.CLIENTS if k != "actisense"]
+    jobs = [(k, F, False) for k in aio.CLIENTS] + [(k, 1 if tier == "quick" else 3, True) for k in aio.CLIENTS if k != "actisense"]
     # a long outage: the delay between attempts must have stopped growing (reached its cap), and the client still recovers
     jobs += [(k, 0, False, ["refuse"] * LONG) for k in aio.CLIENTS] + [("ebyte", 0, False, ["eof", "refuse", "refuse", "reset"] + ["refuse"] * LONG)]
-    parts = run_jobs(rep, _worker, jobs, timeout_s=800)
+    parts = run_jobs(rep, _worker, jobs, timeout_s=800 if tier == "quick" else 4500)
     from .plain import plain
     backoff_lemma(rep, R, plain())
     n = sum(p["n"] for p in parts if p and "n" in p)
